@@ -58,3 +58,14 @@ def skips_arguments_with_defaults(func):
         for name, spec in inspect.signature(func).parameters.items()
         if spec.default is inspect.Parameter.empty
     }
+
+
+def skips_keyword_only_arguments(func):
+    # positive control for R16.DEFAULTS (kind clause): only arguments of one kind are collected
+    import inspect
+
+    return {
+        spec.name
+        for spec in inspect.signature(func).parameters.values()
+        if spec.kind is spec.POSITIONAL_OR_KEYWORD
+    }
